@@ -208,10 +208,13 @@ def judge(stream, box, velz, fdt=np.float32, modes=None):
     rpos, rvel = ref_decode(data, box, velz)
     npart = len(rpos)
     tol = 3e-6 if fdt == np.float32 else 1e-11
-    for pm, vm in (modes or itertools.product(('alloc', 'skip', 'given', 'tight'), repeat=2)):
-        po = {'alloc': None, 'skip': False, 'given': np.full((N, 3), np.nan, dtype=fdt),
+    other = np.float64 if fdt == np.float32 else np.float32
+    tol32 = 3e-6
+    for pm, vm in (modes or (list(itertools.product(('alloc', 'skip', 'given', 'tight'), repeat=2)) + [('other', 'other'), ('other', 'alloc'), ('given', 'other')])):
+        # 'other': a preallocated buffer whose dtype is not float_dtype - a supplied array must be filled itself, whatever its dtype
+        po = {'alloc': None, 'skip': False, 'given': np.full((N, 3), np.nan, dtype=fdt), 'other': np.full((N, 3), np.nan, dtype=other),
               'tight': np.full((npart, 3), np.nan, dtype=fdt)}[pm]         # exactly one row per particle
-        vo = {'alloc': None, 'skip': False, 'given': np.full((N, 3), np.nan, dtype=fdt),
+        vo = {'alloc': None, 'skip': False, 'given': np.full((N, 3), np.nan, dtype=fdt), 'other': np.full((N, 3), np.nan, dtype=other),
               'tight': np.full((npart, 3), np.nan, dtype=fdt)}[vm]
         try:
             r = unpack_pack9(data, box, velz, float_dtype=fdt, posout=po, velout=vo)
@@ -229,7 +232,7 @@ def judge(stream, box, velz, fdt=np.float32, modes=None):
             scale = box if k == 0 else max(1.0, max((abs(x) for row in ref for x in row), default=1.0))
             for i in range(npart):
                 for c in range(3):
-                    if not abs(float(out[i, c]) - ref[i][c]) <= tol * max(scale, 1.0, abs(ref[i][c])):
+                    if not abs(float(out[i, c]) - ref[i][c]) <= (tol32 if m == 'other' else tol) * max(scale, 1.0, abs(ref[i][c])):
                         return f'mode pos={pm} vel={vm}: particle {i} comp {c} {"pos" if k == 0 else "vel"}={out[i, c]} expected {ref[i][c]}'
     return None
 
